@@ -55,6 +55,19 @@ CHECKS["C16"] = dict(
     note="sha512 pre-filter not subverted; order of groups / of paths in a group is C14's business.",
 )
 
+CHECKS["C11"] = dict(
+    cat="exploration", ref="DESIGN.md §3 C11",
+    technique="exhaustive enumeration of argument vectors (all sequences of <=3 argument groups over 55 groups: the four recognised options in both spellings with hazardous values, and a catalogue of unmodelled real compiler flags; 4-group vectors over a sub-alphabet) against a reference option extractor",
+    text="Every enumerated vector is parsed by the real config.ArgumentParser for several compiler names; defines, -I directories, -isystem directories and forced includes must be exactly those given, in command-line order, with no exception, and the shell-quoted command form must split back to the same argv.",
+    note="Reference extractor implements gcc's Joined|Separate rule; relative order between -I and -isystem is C04's; one recorded finding (attached -isystemDIR / -includeFILE).",
+)
+CHECKS["C13"] = dict(
+    cat="exploration", ref="DESIGN.md §3 C13",
+    technique="exhaustive enumeration of database entries (7 directory x 4 file x 6 -I spellings) and of all entry sequences of length <=2/3 over representative + skipped kinds, loaded by the real config.load_database and analysed by finder.find, against an independent path model confirmed by gcc -E run from the entry's directory",
+    text="For every enumerated database the loaded entries must name the file and include directories a compiler running in `directory` would use, skipped entries must each produce one warning and change nothing else, and the header reached through -I must be the one attributed.",
+    note="Path model confirmed by gcc for every distinct command; schema-invalid databases are outside the universe.",
+)
+
 PENDING = {}
 
 
